@@ -2,7 +2,7 @@ SPECIFICATION Spec
 CONSTANTS
   Inst = {1}
   InitUp = {1}
-  Alerts = {"a"}
+  Alerts = {"a", "b"}
   GW = 1
   GI = 3
   RI = 20
@@ -11,11 +11,11 @@ CONSTANTS
   MinT = 10
   Maint = 1000
   MaxDelay = 1
-  Quantum = 4
-  MaxTime = 20
+  Quantum = 3
+  MaxTime = 24
   Rule = "sum"
   Off = {}
-  Lim <- QStop
+  Lim <- SoloStop
 VIEW View
 INVARIANTS AtLeastOnce NoDuplicateWhenHealthy SilenceSurvivesRestart NoRepeatAfterRestart ReadyEventually Sane
 CHECK_DEADLOCK FALSE
